@@ -19,7 +19,7 @@ def shards(tier, seed):
     L = 128 if tier == 'quick' else 320
     out = [{'name': f'fpr-{b}', 'kind': 'fpr', 'lo': lo, 'hi': hi} for b, (lo, hi) in enumerate([(1, L // 4), (L // 4 + 1, L // 2), (L // 2 + 1, 3 * L // 4), (3 * L // 4 + 1, L)])]
     for (m, t) in [(1, 0), (3, 1), (7, 3), (5, 0)]:
-        for k in (1, 8, 30, 40):
+        for k in (0, 1, 8, 30, 40):
             out.append({'name': f'types-m{m}t{t}k{k}', 'kind': 'types', 'm': m, 't': t, 'k': k, 'L': 64 if tier == 'quick' else 128})
     return out
 
@@ -96,7 +96,14 @@ def run(shard, rec):
                         continue
                     rec.count('sectype_fields_checked')
                     with rec.guard(f'{name}(l={l},f={ff},n={n}) at m={m},t={t},k={k}', case, {'fn': 'sectype-field', 'clause': 'raises'}):
-                        st = mk()
+                        try:
+                            st = mk()
+                        except AssertionError:
+                            # refusing is right exactly when the field of l+f+k+2 bits could not be larger than the number of parties
+                            if t > 0 and m >= 2 ** (l + ff + k + 1):
+                                rec.count('types_refused_for_too_many_parties')
+                                continue
+                            raise
                         q = st.field.order
                         bad = None
                         if not R.is_prime_mr(q) or st.field.ext_deg != 1:
@@ -111,3 +118,38 @@ def run(shard, rec):
                             rec.violation(f'{name}(l={l},f={ff},n={n}) at m={m},t={t},k={k}: {bad}', {'fn': 'sectype-field', 'clause': 'order'}, {'case': case}, case=case)
                     rec.case(case, nontrivial=l >= 3, sample={'type': name, 'l': l, 'f': ff, 'k': k, 'm': m, 'field_bits': q.bit_length()} if rng.random() < 0.004 else None)
     ctx.run(types)
+
+    def supplied_primes():
+        # a prime supplied by the caller (p=...) is accepted only if it leaves the l+f+k+1 bits of headroom, and then it is the field
+        mpc = sim.NS.proxy
+        for l in (2, 5, 8, 16, 32):
+            for f in (None, 0, 1, l // 2, l):
+                ff = 0 if f is None else f
+                for db in (-2, -1, 0, 1, 2, 3, 12):
+                    b = l + ff + k + 1 + db
+                    if b < 3:
+                        continue
+                    P = (1 << (b - 1)) + 1
+                    while not R.is_prime_mr(P):
+                        P += 2
+                    if P.bit_length() != b:
+                        continue
+                    case = ['type-p', m, t, k, l, f, b]
+                    if not rec.wants(case):
+                        continue
+                    rec.count('supplied_primes_checked')
+                    name = 'SecInt' if f is None else 'SecFxp'
+                    try:
+                        st = mpc.SecInt(l, p=P) if f is None else mpc.SecFxp(l, f, p=P)
+                        got = st.field.order
+                    except (ValueError, AssertionError) as ex:
+                        got = None
+                    should_accept = b > l + ff + k + 1 and (t == 0 or P > m)
+                    if should_accept and got != P:
+                        rec.violation(f'{name}(l={l},f={f},p=<{b}-bit prime>) at m={m},t={t},k={k}: {"refused" if got is None else "field order " + str(got)} although the prime leaves the required headroom',
+                                      {'fn': 'sectype-field', 'clause': 'supplied-prime-refused'}, {'case': case}, case=case)
+                    if not should_accept and got is not None:
+                        rec.violation(f'{name}(l={l},f={f},p=<{b}-bit prime>) at m={m},t={t},k={k}: accepted although the field is not larger than 2^(l+f+k+1) = 2^{l + ff + k + 1} (or not larger than m)',
+                                      {'fn': 'sectype-field', 'clause': 'supplied-prime-too-small'}, {'case': case}, case=case)
+                    rec.case(case, nontrivial=True)
+    ctx.run(supplied_primes)
